@@ -38,8 +38,10 @@ FLOORS = {"values_compared": (6000, 100000), "missing_key_failures": (800, 15000
           "outcome_changing_present_paths": (4000, 80000), "outcome_changing_absent_paths": (800, 15000), "escaped_brace_cases": (300, 5000), "hostile_key_steps": (8000, 150000), "hostile_fail_then_complete": (300, 6000), "whole_parameter_cases": (14, 14)}
 SHARDS_QUICK = 4
 
-PIECES = ["lit", "-", "{A}", "{B}", "{C}", "{S.X}", "{S.Y}", "{T.X}", "{L.0}", "{L.1}", "{D}", "{:p:}", "{:q:}", "\\{esc\\}", "x\\{y\\}z"]
-VALS = [0, 1, -1, True, None, "", "a", "b", "{A}", "{B}", "{C}", "p{T.X}q", "{S.Y}", "{S.X}-{B}", "{L.0}", [1, "{B}"], ["a"], "{Q}",
+PIECES = ["lit", "-", "{A}", "{B}", "{C}", "{S.X}", "{S.Y}", "{T.X}", "{L.0}", "{L.1}", "{D}", "{:p:}", "{:q:}", "\\{esc\\}", "x\\{y\\}z",
+          # references to legal option names that are not identifiers (dash, space, slash) and to the LAST list element
+          "{K-1}", "{K 2}", "{IN/OUT}", "{L.-1}"]
+VALS = [0, 1, -1, True, None, "", "a", "b", "{A}", "{B}", "{C}", "p{T.X}q", "{S.Y}", "{S.X}-{B}", "{L.0}", [1, "{B}"], ["a"], "{Q}", "{K-1}", "x{K 2}", ["{IN/OUT}"], "{L.-1}",
         # containers mixing templated members and nested sections / lists, in both orders (every member must be walked)
         {"p": "{B}", "q": {"r": "{C}"}}, ["{B}", {"r": "{C}"}], {"q": {"r": "{C}"}, "p": "{B}"}, [["{D}"], {"k": ["{B}", 2]}, "{C}"],
         {"u": {"v": {"w": "{B}"}}, "x": ["{C}", {"y": "{D}"}]}]
@@ -52,8 +54,8 @@ def gen_text(r):
 def gen_options(r):
     for _ in range(40):
         o = {}
-        for k in ("A", "B", "C", "D"):
-            if r.random() < 0.7:
+        for k in ("A", "B", "C", "D", "K-1", "K 2", "IN/OUT"):
+            if r.random() < (0.7 if len(k) == 1 else 0.5):
                 o[k] = copy.deepcopy(r.choice(VALS))
         for sec, subs in (("S", ("X", "Y")), ("T", ("X",))):
             if r.random() < 0.7:
